@@ -1,2 +1,181 @@
-import AlgoVerif.Common
-/-! # C09 — property theorems (none yet) -/
+import AlgoVerif.Proofs.C09Valid
+/-!
+# C09 — normal forms are reached, results pass `Verify()`, inputs are never mutated
+
+Reading of the property.  The post-conditions are the predicates of `Spec/C09.lean` (`NoEmptyExceptFreshStart`,
+`NoUnit`, `AllReachable`, `NoCycle`, `NoLeftRecursion`, `LeftFactored`, `IsCNF`, and `Spec.Valid` =
+`Verify()`), evaluated on the result of the Model (`Model/C08.lean`, shared with C08) of each transformation.
+Full statement, for every transformation `T` with post-condition `Post_T`:
+
+    ∀ g g', Valid g → Hygienic g → T g = .ok g' → Post_T g g' ∧ Valid g'
+
+Input immutability is not a statement about the functional Model (a function cannot change its argument); it
+is validated on every explored run by the harness (deep clone before, `Equal` after, for the receiver of each
+transformation and for grammars handed to `predictive.BuildParsingTable` and the three LR table
+constructors).
+
+Proved here, for every grammar, no size bounds:
+
+* `EliminateSingleProductions` yields no unit production (`C09_singlefree_noUnit`);
+* `EliminateEmptyProductions` yields no ε-production except `S′ → ε` for a start symbol `S′` that is new and
+  occurs in no body (`C09_emptyfree_noEmpty`);
+* `EliminateUnreachableProductions` yields only reachable non-terminals, productions and terminals
+  (`C09_unreachable_allReachable`);
+* `EliminateCycles` yields no unit production, only reachable symbols, and no derivation `A ⇒⁺ A` — the
+  semantic statement, not only the graph test (`C09_cycles_noUnit`, `C09_cycles_allReachable`,
+  `C09_cycles_noCycle`);
+* the results of these four transformations pass `Verify()` (`C09_emptyfree_valid`, `C09_singlefree_valid`,
+  `C09_unreachable_valid`, `C09_cycles_valid`) — for ε-, unit- and cycle-elimination under the hypothesis
+  `L(G) ≠ ∅`, which `C09_empty_language_counterexample` shows cannot be dropped for unit-elimination.
+
+Kernel-checked counterexamples (`decide` on the Model) for what remains a known finding:
+`C09_leftfactor_counterexample`, `C09_empty_language_counterexample`, `C09_fresh_names_counterexample`.
+-/
+open AlgoVerif AlgoVerif.Gram AlgoVerif.C08 AlgoVerif.C08.Spec AlgoVerif.C09.Spec
+
+/-- the result of `EliminateSingleProductions` has no production `A → B` -/
+theorem C09_singlefree_noUnit (g g' : G) (h : elimSingle g = .ok g') : NoUnit g' :=
+  elimSingle_noUnit h
+
+/-- the only ε-production `EliminateEmptyProductions` leaves is `S′ → ε` for a fresh start symbol `S′`
+(different from the input's start symbol, occurring in no body) -/
+theorem C09_emptyfree_noEmpty (g g' : G) (hv : Valid g) (h : elimEmpty g = .ok g') :
+    NoEmptyExceptFreshStart g g' :=
+  elimEmpty_noEmpty h hv.wellFormed
+
+/-- non-vacuity: nullable start symbol, nullable symbols in the middle of a body -/
+example : (elimEmpty
+      { terms := ["a", "b"]
+        nonterms := ["S", "A"]
+        prods := [{ head := "S", body := [.nonterm "A", .term "b", .nonterm "A"] }, { head := "S", body := [] },
+                  { head := "A", body := [.term "a"] }, { head := "A", body := [] }]
+        start := "S" }).map showGrammar
+    = .ok "start=S′ T={a,b} N={A,S,S′} P={A→a; S′→S; S′→ε; S→A b; S→A b A; S→b; S→b A}" := by
+  decide
+
+/-- every non-terminal, production and terminal of the result of `EliminateUnreachableProductions` is
+reachable from the start symbol -/
+theorem C09_unreachable_allReachable (g g' : G) (h : elimUnreachable g = .ok g') : AllReachable g' :=
+  elimUnreachable_allReachable h
+
+/-- the result of `EliminateCycles` has no unit production -/
+theorem C09_cycles_noUnit (g g' : G) (h : elimCycles g = .ok g') : NoUnit g' :=
+  elimCycles_noUnit h
+
+/-- the result of `EliminateCycles` has only reachable symbols -/
+theorem C09_cycles_allReachable (g g' : G) (h : elimCycles g = .ok g') : AllReachable g' :=
+  elimCycles_allReachable h
+
+-- non-vacuity: a cyclic grammar (`A ⇒ B ⇒ A`, `S ⇒ S S ⇒* S` through the nullable `A`)
+set_option maxRecDepth 8000 in
+example : (elimCycles
+      { terms := ["a", "b"]
+        nonterms := ["S", "A", "B"]
+        prods := [{ head := "S", body := [.nonterm "A", .nonterm "B", .nonterm "A"] },
+                  { head := "S", body := [.nonterm "S", .nonterm "S"] },
+                  { head := "A", body := [.nonterm "B"] }, { head := "A", body := [] },
+                  { head := "B", body := [.nonterm "A"] }, { head := "B", body := [.term "b"] }]
+        start := "S" }).map (fun g' => (noUnitB g', noCycleB g', allReachableB g', validB g'))
+    = .ok (true, true, true, true) := by
+  decide
+
+/-- the result of `EliminateCycles` has no derivation `A ⇒⁺ A` (one or more steps), for any `A` -/
+theorem C09_cycles_noCycle (g g' : G) (hv : Valid g) (h : elimCycles g = .ok g') : NoCycle g' :=
+  elimCycles_noCycle h hv.wellFormed
+
+/-- the result of `EliminateEmptyProductions` passes `Verify()` (start symbol declared, every non-terminal
+has a production, every symbol declared) -/
+theorem C09_emptyfree_valid (g g' : G) (hv : Valid g) (hl : ∃ w, Language g w) (h : elimEmpty g = .ok g') :
+    Valid g' :=
+  elimEmpty_valid h hv hl
+
+/-- the result of `EliminateSingleProductions` passes `Verify()` when `L(G) ≠ ∅` -/
+theorem C09_singlefree_valid (g g' : G) (hv : Valid g) (hl : ∃ w, Language g w) (h : elimSingle g = .ok g') :
+    Valid g' :=
+  elimSingle_valid h hv hl
+
+/-- the result of `EliminateUnreachableProductions` passes `Verify()` -/
+theorem C09_unreachable_valid (g g' : G) (hv : Valid g) (h : elimUnreachable g = .ok g') : Valid g' :=
+  elimUnreachable_valid h hv
+
+/-- the result of `EliminateCycles` passes `Verify()` when `L(G) ≠ ∅` -/
+theorem C09_cycles_valid (g g' : G) (hv : Valid g) (hl : ∃ w, Language g w) (h : elimCycles g = .ok g') :
+    Valid g' :=
+  elimCycles_valid h hv hl
+
+/-- non-vacuity of the hypotheses: a valid grammar with a sentence (`b`), an ε-only non-terminal `C` (D13),
+a unit-only non-terminal `D`; the results are valid -/
+example :
+    let g : G := { terms := ["a", "b"]
+                   nonterms := ["S", "C", "D"]
+                   prods := [{ head := "S", body := [.nonterm "C", .term "b"] }, { head := "S", body := [.nonterm "D", .term "a"] },
+                             { head := "C", body := [] }, { head := "D", body := [.nonterm "D"] }]
+                   start := "S" }
+    Valid g ∧ (elimEmpty g).map (fun g' => (showGrammar g', validB g')) = .ok ("start=S T={a,b} N={D,S} P={D→D; S→D a; S→b}", true)
+      ∧ (elimCycles g).map (fun g' => (showGrammar g', validB g')) = .ok ("start=S T={b} N={S} P={S→b}", true) := by
+  decide
+
+/-! ## known findings: kernel-checked witnesses on the Model -/
+
+def leftFactorWitness : G :=
+  { terms := ["a", "b", "c"]
+    nonterms := ["S"]
+    prods := [{ head := "S", body := [.term "a", .term "b"] }, { head := "S", body := [.term "a", .term "c"] }]
+    start := "S" }
+
+/-- `LeftFactor` returns `S → a b | a c` unchanged (it factors a head only when the head also has an
+alternative with a unique first symbol): the result is not left-factored.  Known finding
+`C09-leftfactor-residual`; the behaviour is pinned by `TestCFG_LeftFactor/5th`. -/
+theorem C09_leftfactor_counterexample :
+    Valid leftFactorWitness ∧ Hygienic leftFactorWitness ∧
+    (leftFactor leftFactorWitness).map (fun g' => (showGrammar g', leftFactoredB g'))
+      = .ok ("start=S T={a,b,c} N={S} P={S→a b; S→a c}", false) := by
+  decide
+
+def emptyLanguageWitness : G :=
+  { terms := ["a"]
+    nonterms := ["S", "A"]
+    prods := [{ head := "S", body := [.nonterm "S"] }, { head := "S", body := [.nonterm "A"] },
+              { head := "A", body := [.nonterm "S"] }]
+    start := "S" }
+
+/-- `L(G) = ∅` and the start symbol reaches unit productions only: the result of
+`EliminateSingleProductions` keeps the start symbol without any production, which `Verify()` rejects.
+Known finding `C09-empty-language-*`. -/
+theorem C09_empty_language_counterexample :
+    Valid emptyLanguageWitness ∧ Hygienic emptyLanguageWitness ∧
+    (elimSingle emptyLanguageWitness).map (fun g' => (showGrammar g', validB g'))
+      = .ok ("start=S T={a} N={S} P={}", false) := by
+  decide
+
+def freshNamesWitness : G :=
+  { terms := ["a", "b", "c", "d", "e", "x", "y"]
+    nonterms := ["S"]
+    prods := (["a", "b", "c", "d", "e"].flatMap fun t =>
+                [({ head := "S", body := [.term t, .term "x"] } : SProd), { head := "S", body := [.term t, .term "y"] }])
+             ++ [{ head := "S", body := [.term "x"] }]
+    start := "S" }
+
+/-- five groups of alternatives with a common first symbol need five fresh names; `AddNewNonTerminal` has
+four prime suffixes and panics.  Known finding `C09-fresh-names-exhausted`. -/
+theorem C09_fresh_names_counterexample :
+    Valid freshNamesWitness ∧ Hygienic freshNamesWitness ∧
+    (leftFactor freshNamesWitness).map showGrammar = .panic := by
+  decide
+
+/-
+Full statements not proved (checked on every run by the harness' independent analyses and by the
+correspondence of `post` lines between the implementation's result and the Lean decision procedures):
+
+    theorem C09_valid_T (g g' : G) (hv : Valid g) (hh : Hygienic g) (hne : ∃ w, Language g w)
+        (h : T g = .ok g') : Valid g'          -- for T ∈ {elimLeftRec, leftFactor, cnf, cnfStart, cnfTerm, cnfBin}
+    theorem C09_leftrec_noLeftRecursion (g g' : G) (hv : Valid g) (hh : Hygienic g)
+        (h : elimLeftRec g = .ok g') : NoLeftRecursion g'
+      -- the ordering invariant of the textbook algorithm: after step i every A_k, k ≤ i, has productions
+      -- starting with a terminal or some A_m, m > k.
+    theorem C09_leftfactor_leftFactored … : false today (C09_leftfactor_counterexample).
+    theorem C09_cnf_isCNF (g g' : G) (hv : Valid g) (hh : Hygienic g) (h : cnf g = .ok g') : IsCNF g'
+    theorem C09_noCycleB_iff (g : G) : noCycleB g = true ↔ NoCycle g
+    theorem C09_noLeftRecB_iff (g : G) : noLeftRecB g = true ↔ NoLeftRecursion g
+      -- the two graph analyses decide the semantic statements.
+-/
